@@ -185,7 +185,8 @@ def main():
         ck.sample({"id": c["id"], "source": c["repr"], "target": c["T"], "ok(none, ne, ndl, both)": [o["ok"] for o in c["out"]]})
     for t in r.tagged("VIOL"):
         c = byid[t[1]]
-        key = "C12|%s|%s->%s" % (t[2], c["x"]["k"] + ("/" + c["fx"]["word"] if c["fx"]["word"] else "/numlit" if c["fx"]["numlit"] else ""), c["T"])
+        items = "[%s]" % ",".join(sorted({i["k"] for i in c["x"]["items"]})) if c["x"]["items"] else ""
+        key = "C12|%s@%s|%s->%s" % (t[2], t[3], c["x"]["k"] + items + ("/" + c["fx"]["word"] if c["fx"]["word"] else "/numlit" if c["fx"]["numlit"] else ""), c["T"])
         ck.violation(key, t[2], {k: c[k] for k in ("repr", "T", "out", "fx", "x")})
     dv = r.tagged("DIV")
     if dv:
